@@ -305,7 +305,7 @@ PROPS = {
         "partial": "the theorems cover the tree transformations (id replacement, check, marker, noise reduction, liveness of exported nodes); that sending the prepared nodes to the store and reading them back yields the same tree is established by the correspondence run (model = store model of C01/C05), not by a theorem",
     },
     "C02": {
-        "required_theorems": ["c02_no_write_lost", "c02_points_converge", "c02_equal_hash_is_skipped", "gen_sync_pinned"],
+        "required_theorems": ["c02_no_write_lost", "c02_points_converge", "c02_exchange_converges_on_stores", "c02_equal_hash_is_skipped", "gen_sync_pinned"],
         "n": {"quick": 300, "thorough": 6000},
         "thorough_seeds": 3,
         "rule": "two in-process instances (downstream A with root RA, upstream B with root RB holding RA after a first catch-up); per case a group G under RA: a shared base of 1-4 nodes with points built on A "
@@ -321,7 +321,7 @@ PROPS = {
                      "time.Now() readings inside a pass are a parameter (wall : Int -> Int) of the model and of the theorems",
                      "the syncCount bookkeeping points the client writes to its own node are ignored"],
         "assumptions": [],
-        "partial": "proved: a pass never loses or reverts a write on either side (any tree, any hashes), and the point exchange for one node/edge leaves both sides with the newest point per identity. Not proved, and false in general (two open findings): that the hash comparison reaches every node that differs, i.e. convergence of whole trees; real-time forwarding is outside the model",
+        "partial": "proved: a pass never loses or reverts a write on either side (any tree, any hashes), and where the pass performs the exchange for a node, both stores hold the newest point per identity afterwards (on the store model itself). Not proved, and false in general (two open findings): that the hash comparison reaches every node that differs, i.e. convergence of whole trees; real-time forwarding is outside the model",
     },
     "C04": {
         "required_theorems": ["c04_recovered_consistent", "c04_all_or_nothing", "c04_acked_not_lost", "c04_batch_present", "gen_tx_pinned", "gen_pragmas_pinned"],
